@@ -205,8 +205,22 @@ def run(ctx):
             toll = N(ix, qa.c(sym.field(r, "toll_fee")))
             spread = N(ix, qa.c(sym.field(r, "spread_fee")))
             zero_path = toll == ("int", 0) and spread == ("int", 0)
+            # what the path knows about the asked amount (`== 0`, `is_zero()`)
+            amt_zero = None
+            for (at, o, _b, _l) in q.conds:
+                a2 = ix.inline(qa.c(at))
+                if tag(a2) == "op" and payload(a2)[0] == "is_zero" and ix.inline(kids(a2)[0]) == amt and o in (True, False):
+                    amt_zero = o
+                if tag(a2) == "op" and payload(a2)[0] in ("eq", "ne") and len(kids(a2)) == 2 and o in (True, False):
+                    ks = [ix.inline(k) for k in kids(a2)]
+                    if amt in ks and any(N(ix, k) == ("int", 0) for k in ks):
+                        amt_zero = ((payload(a2)[0] == "eq") == o)
             if zero_path:
+                if amt_zero is not True:
+                    bad = bad or "answers zero fees on a path where the asked amount is not known to be zero"
                 continue
+            if amt_zero is True:
+                bad = bad or "computes the fees only when the asked amount IS zero"
             seen_nonzero = True
             T = ("div", ("mul", hole("amount", lambda v: v == amt), hole("toll_ratio", lambda v: vcfg(v, "toll_ratio"))), hole("decimals", lambda v: vcfg(v, "decimals")))
             S = ("div", ("mul", hole("amount", lambda v: v == amt), hole("spread_ratio", lambda v: vcfg(v, "spread_ratio"))), hole("decimals", lambda v: vcfg(v, "decimals")))
